@@ -12,11 +12,22 @@ RULE = ("random epsilon-NFA/NFA/DFA specs (0-5 states, 1-3 symbols, int / random
         "eclose, remove_epsilon_transitions, to_deterministic, copy, minimize against the Lean model "
         "(structure) and the verified language-equivalence oracle. Non-trivial: >=2 states, >=2 "
         "transitions, a start and a final state.")
-THEOREMS = ["Pfl.ENFA.acceptsE_iff", "Pfl.ENFA.acceptsN_iff", "Pfl.ENFA.acceptsD_iff",
-            "Pfl.ENFA.removeEps_lang", "Pfl.ENFA.removeEps_epsFree", "Pfl.ENFA.copyE_lang",
-            "Pfl.ENFA.copyD_lang", "Pfl.ENFA.toDet_lang", "Pfl.ENFA.toDet_lang_noEps",
-            "Pfl.ENFA.toDet_shape", "Pfl.ENFA.langDiff_none_iff", "Pfl.ENFA.langDiff_some",
-            "Pfl.ENFA.member_iff"]
+THEOREMS = ["Pfl.ENFA.acceptsE_iff",
+            "Pfl.ENFA.acceptsN_iff",
+            "Pfl.ENFA.acceptsD_iff",
+            "Pfl.ENFA.removeEps_lang",
+            "Pfl.ENFA.removeEps_epsFree",
+            "Pfl.ENFA.copyE_lang",
+            "Pfl.ENFA.copyD_lang",
+            "Pfl.ENFA.toDet_lang",
+            "Pfl.ENFA.toDet_lang_noEps",
+            "Pfl.ENFA.toDet_shape",
+            "Pfl.ENFA.langDiff_none_iff",
+            "Pfl.ENFA.langDiff_some",
+            "Pfl.ENFA.member_iff",
+            "Pfl.Names.mergeName_keyInj",
+            "Pfl.Names.toDet_named_lang_partial",
+            "Pfl.Names.toDet_named_lang_false"]
 
 
 def generate(rng, tier):
